@@ -9,6 +9,13 @@ package vcr
 // document sits in the node's DID store), which yields validly signed hostile credentials that reach the indexer; the
 // readers (Resolve by id, Search) run afterwards. Real vcr instance (NewTestVCRContext), one per process.
 // Oracle: no panic / hang; a rejected credential does not change the number of stored documents.
+// Documents are kept below c19SCMaxDoc here: indexing cost in go-leia grows with (number of tokens/values of an indexed
+// field) x (document size), because the document is JSON-LD-expanded again for every key of the preceding index part
+// (index_organization = tokenised name, then city) — 40 KB take 6 s, 150 KB 40 s, inside the bbolt write transaction.
+// That terminates and is reported as an observation; with larger documents the 10 s hang deadline would trip on it (and
+// not reproduce under the 100 s replay deadline), which makes runs inconclusive instead of telling anything new.
+// The fixture is process-wide; when a case was abandoned by the hang deadline its goroutine may still hold the store's
+// write lock, so the next case (e.g. while the failing case is minimised) gets a fresh fixture instead of queueing behind it.
 
 import (
 	"context"
@@ -16,6 +23,7 @@ import (
 	"fmt"
 	"io"
 	"sync"
+	"sync/atomic"
 	"testing"
 	"time"
 
@@ -47,6 +55,8 @@ const (
 
 var c19SCValidAt = time.Date(2024, 6, 1, 12, 0, 0, 0, time.UTC)
 
+const c19SCMaxDoc = 8 * 1024
+
 type c19SCCase struct {
 	Seed   int       `json:"seed"`
 	Plan   c19x.Plan `json:"plan"`
@@ -54,45 +64,54 @@ type c19SCCase struct {
 }
 
 type c19SCEnv struct {
-	ctx TestVCRContext
-	vcr *vcr
-	ld  jsonld.JSONLD
-	n   int
-	err error
+	ctx  TestVCRContext
+	vcr  *vcr
+	ld   jsonld.JSONLD
+	n    int
+	err  error
+	busy atomic.Int32 // cases currently inside this fixture (a case abandoned by the hang deadline stays counted)
 }
 
 var (
-	c19SCOnce sync.Once
-	c19SC     *c19SCEnv
+	c19SCMu sync.Mutex
+	c19SC   *c19SCEnv
 )
 
 func c19SCGetEnv(x *h.Ctx) *c19SCEnv {
-	c19SCOnce.Do(func() {
+	c19SCMu.Lock()
+	defer c19SCMu.Unlock()
+	if c19SC != nil && c19SC.err == nil && c19SC.busy.Load() > 0 {
+		// an earlier case never came back (cases of one process run one after the other): leave its fixture to it
+		c19SC = nil
+	}
+	if c19SC == nil {
 		e := &c19SCEnv{}
 		c19SC = e
-		defer func() {
-			if r := recover(); r != nil {
-				e.err = fmt.Errorf("building the process fixture: %v", r)
+		func() {
+			defer func() {
+				if r := recover(); r != nil {
+					e.err = fmt.Errorf("building the process fixture: %v", r)
+				}
+			}()
+			t := x.TB.(*testing.T)
+			e.ctx = NewTestVCRContext(t, nutsCrypto.NewMemoryCryptoInstance(t))
+			e.vcr = e.ctx.VCR.(*vcr)
+			e.ld = jsonld.NewTestJSONLDManager(t)
+			// the issuer's DID document (fixed key as assertion method) is known to the node
+			id := did.MustParseDID(c19SCIssuer)
+			vm, err := did.NewVerificationMethod(did.MustParseDIDURL(c19SCIssuerKid), ssi.JsonWebKey2020, id, &c19x.ECKey().PublicKey)
+			if err != nil {
+				panic(err)
+			}
+			doc := did.Document{Context: []interface{}{did.DIDContextV1URI()}, ID: id}
+			doc.AddAssertionMethod(vm)
+			doc.AddCapabilityInvocation(vm)
+			b, _ := json.Marshal(doc)
+			if err := e.ctx.DIDStore.Add(doc, didstore.Transaction{Ref: hash.SHA256Sum([]byte("verif-c19-tx")), PayloadHash: hash.SHA256Sum(b), SigningTime: time.Date(2020, 1, 1, 0, 0, 0, 0, time.UTC)}); err != nil {
+				panic(err)
 			}
 		}()
-		t := x.TB.(*testing.T)
-		e.ctx = NewTestVCRContext(t, nutsCrypto.NewMemoryCryptoInstance(t))
-		e.vcr = e.ctx.VCR.(*vcr)
-		e.ld = jsonld.NewTestJSONLDManager(t)
-		// the issuer's DID document (fixed key as assertion method) is known to the node
-		id := did.MustParseDID(c19SCIssuer)
-		vm, err := did.NewVerificationMethod(did.MustParseDIDURL(c19SCIssuerKid), ssi.JsonWebKey2020, id, &c19x.ECKey().PublicKey)
-		if err != nil {
-			panic(err)
-		}
-		doc := did.Document{Context: []interface{}{did.DIDContextV1URI()}, ID: id}
-		doc.AddAssertionMethod(vm)
-		doc.AddCapabilityInvocation(vm)
-		b, _ := json.Marshal(doc)
-		if err := e.ctx.DIDStore.Add(doc, didstore.Transaction{Ref: hash.SHA256Sum([]byte("verif-c19-tx")), PayloadHash: hash.SHA256Sum(b), SigningTime: time.Date(2020, 1, 1, 0, 0, 0, 0, time.UTC)}); err != nil {
-			panic(err)
-		}
-	})
+	}
 	if c19SC.err != nil {
 		x.Fatalf("%v", c19SC.err)
 	}
@@ -158,7 +177,7 @@ func c19SCRun(x *h.Ctx, c c19SCCase) {
 		mutated, a := c.Plan.ApplyDoc(jsonmut.Clone(any(seed)))
 		ap = a
 		raw := jsonmut.Encode(mutated)
-		if len(raw) > c19x.MaxInput {
+		if len(raw) > c19SCMaxDoc {
 			ap.Oversize = true
 			return
 		}
@@ -186,7 +205,7 @@ func c19SCRun(x *h.Ctx, c c19SCCase) {
 			payload = signed
 		}()
 	})
-	if ap.Oversize {
+	if ap.Oversize || len(payload) > c19SCMaxDoc+2048 { // (+ the proof)
 		x.Class("skipped:oversize")
 		return
 	}
@@ -204,6 +223,8 @@ func c19SCRun(x *h.Ctx, c c19SCCase) {
 		x.NonTrivial()
 		x.Class("stage1:is-JSON")
 	}
+	e.busy.Add(1)
+	defer e.busy.Add(-1) // not reached by a case the hang deadline abandoned: the next case then takes a fresh fixture
 	c19x.Guard(x, func() {
 		// ambassador.vcCallback
 		target := vc.VerifiableCredential{}
